@@ -227,6 +227,7 @@ func init() {
 		Prop{
 			ID: "C17",
 			Runs: []Run{
+				{Harness: "reporting.ZZC17Report", Desc: "the single reporter for an arbitrary violation (16 documented codes + unknown, any 4-byte message, any position), one marker (8 tokens, any range) and one global token (5): Report is called iff the violation's OWN code is not suppressed at its OWN position, at that position, with a message starting error: [that code]", Bounds: map[string]interface{}{"codes": 17, "marker_tokens": 8, "global_tokens": 5, "range": "[1,2^31)"}},
 				{Harness: "zzverif/zzh.ZZC17WellFormed", Desc: "all-codes program, one analyzer at a time, with readable sources: [CODE] prefix with a documented code of the analyzer's category, no second code, located in the analysed package's file on the offending line, excerpt shows that line, help link = category page (frozen table). Concrete program: this harness is executed by the interpreter and natively, no symbolic input", Bounds: map[string]interface{}{"program": "allSrcD + allSrcU", "codes": 13}},
 				{Harness: "zzverif/zzh.ZZC17Inline", Desc: "inline '// @ignore CODE' with the displayed code on any <= 2 of the 13 diagnostic lines: exactly those diagnostics disappear", Bounds: map[string]interface{}{"markers": "<= 2 of 13"}},
 			},
